@@ -264,7 +264,11 @@ def checker_cases(ctx, out, objs, contig_sets):
     # objects on chromosomes that no contig list names
     strangers = [("typed", SC.typed_record(rng, "T1", "N1", "3", 10, 12)), ("untyped", SC.untyped_record("T1", "N1", "chrY", "10", "12")),
                  ("typed", SC.typed_record(rng, "TA", None, "GL000192.1", 1, 1)), ("untyped", SC.untyped_record("T2", "", "11", "5", "5")),
-                 ("loc", SC.Loc("chrUn", 7, 9)), ("loc", SC.Loc(None, 7, 9))]
+                 ("loc", SC.Loc("chrUn", 7, 9)), ("loc", SC.Loc(None, 7, 9)),
+                 # two defects at once: an unlisted chromosome AND a position text that is no number - the unlisted chromosome is
+                 # what is reported (a record without a readable position is skipped only when its chromosome is known)
+                 ("untyped", SC.untyped_record("T1", "N1", "chrY", "abc", "12")), ("untyped", SC.untyped_record("T1", "N1", "GL000192.1", "10", "n/a")),
+                 ("untyped", SC.untyped_record("T2", "", "chrUn", "1e3", "."))]
     reqs, meta = [], []
     with tempfile.TemporaryDirectory() as tmp:
         for _ in range(ctx.scale(160, 1600)):
